@@ -1,21 +1,28 @@
 ------------------------------- MODULE C04_MC -------------------------------
 (***************************************************************************)
 (* Role 1 (model checker) and role 2 (generator) for property C04.         *)
-(* The FPRegistry machine is explored under three families of constants:   *)
-(*   Model*    exhaustive interleaving model (invariants, mutant twins)    *)
-(*   Hist*     sequential Compile-call histories, emitted when complete    *)
-(*   Sched*    gated evaluations of ONE expression on ONE resource; every  *)
-(*             interleaving is emitted as a schedule when it is complete   *)
+(* The FPRegistry machine is explored under four families of constants:    *)
+(*   Model*   exhaustive interleaving model: invariants and mutant twins   *)
+(*   Hist*    sequential Compile-call histories; each prefix is emitted    *)
+(*            when its last call completes                                 *)
+(*   Sched*   gated evaluations of ONE expression on ONE resource; every   *)
+(*            interleaving of their critical sections is emitted as a      *)
+(*            schedule when it is complete                                 *)
+(*   Time*    single evaluations of time programs with and without         *)
+(*            OverrideTime (replayed under four process time zones)        *)
 (***************************************************************************)
 EXTENDS FPRegistry, C04, Json
 
+CC(api, os, prog, c) == [api |-> api, opts |-> os, prog |-> prog, eid |-> c]
+EC(e, r, os) == [eid |-> e, r |-> r, opts |-> os]
+
 ----------------------------------------------------------------------------
-(* Model configuration *)
+(* Model configurations *)
 MP1 == <<NNow, NEnv("x"), NFn("vfA"), NToday>>
 MP2 == <<NEnv("x"), NFn("exists"), NRes, NTod>>
 MP3 == <<NFn("join"), NBogus, NNow>>
-CC(api, os, prog, c) == [api |-> api, opts |-> os, prog |-> prog, eid |-> c]
 
+(* two goroutines, rich Compile menus (option lists of length <= 2) *)
 ModelCompileMenu ==
   [c \in CSlots |->
      IF c = 1 THEN {CC("fhirpath", <<OAdd("vfA")>>, MP1, 1),
@@ -29,15 +36,138 @@ ModelCompileMenu ==
            CC("fhirpath", <<OXform, OPerm>>, MP2, c),
            CC("patch", <<OXform>>, MP2, c),
            CC("fhirpath", <<>>, MP3, c)}]
-
-EC(e, r, os) == [eid |-> e, r |-> r, opts |-> os]
 ModelEvalMenu ==
   [v \in VSlots |->
      IF v = 1 THEN {EC(1, 1, <<OTime(7, 330), OEnv("x", 1)>>)}
      ELSE IF v = 2 THEN {EC(e, r, <<OEnv("x", 2)>>) : e \in {1, 2}, r \in {1, 2}} \cup {EC(2, 1, <<OEnv("x", 3), OEnv("x", 3)>>)}
      ELSE {EC(1, 2, <<OEnv("y", 3)>>), EC(1, 1, <<OEnv("x", 3), OTime(9, 0)>>)}]
 
-AllInvariants ==
-  /\ TypeOK /\ CompileIsolation /\ BuiltinsProtected /\ OneInstantPerEval
-  /\ Determinism /\ ExprIsFunctionOfCall /\ OptionErrorBlocksEval
+(* three goroutines sharing expression 1 (and 2), leaner menus *)
+MQ1 == <<NNow, NEnv("x"), NFn("vfA"), NTod>>
+Model3CompileMenu ==
+  [c \in CSlots |->
+     IF c = 1 THEN {CC("fhirpath", <<OAdd("vfA")>>, MQ1, 1)}
+     ELSE {CC("fhirpath", <<>>, MQ1, c), CC("patch", <<OExp, OAdd("vfA")>>, MQ1, c),
+           CC("fhirpath", <<OAdd("now"), OAdd("vfA")>>, MQ1, c)}]
+Model3EvalMenu ==
+  [v \in VSlots |->
+     IF v = 1 THEN {EC(1, 1, <<OTime(7, 330), OEnv("x", 1)>>)}
+     ELSE IF v = 2 THEN {EC(1, 2, <<OEnv("x", 2)>>), EC(2, 1, <<OEnv("x", 2)>>)}
+     ELSE {EC(1, 1, <<OEnv("x", 3), OEnv("x", 3)>>), EC(1, 1, <<OEnv("x", 3)>>)}]
+
+----------------------------------------------------------------------------
+(* Histories of Compile calls *)
+HistAlphabet == {OAdd("vfA"), OAdd("vfB"), OAdd("exists"), OAdd("join"), OExp, OPerm, OXform}
+OptLists(A, n) == UNION {[1..m -> A] : m \in 0..n}
+HasOpt(os, o) == \E k \in 1..Len(os) : os[k].o = o
+FirstAdd(os) == os[CHOOSE k \in 1..Len(os) : os[k].o = "add" /\ \A j \in 1..(k - 1) : os[j].o # "add"].name
+(* the program a history call compiles is determined by its options: it calls *)
+(* the first function it registers, else join() when experimental functions   *)
+(* are requested, else the navigation only Permissive tolerates, else vfA()   *)
+(* - which resolves only if a registration has leaked from another call.      *)
+ProgOf(os) == IF HasOpt(os, "add") THEN <<NFn(FirstAdd(os))>>
+              ELSE IF HasOpt(os, "exp") THEN <<NFn("join")>>
+              ELSE IF HasOpt(os, "perm") THEN <<NBogus>>
+              ELSE <<NFn("vfA")>>
+HistMenuN(n) == [c \in CSlots |-> {CC(api, os, ProgOf(os), c) : api \in {"fhirpath", "patch"}, os \in OptLists(HistAlphabet, n)}]
+HistMenu2 == HistMenuN(2)
+HistMenu1 == HistMenuN(1)
+NoEvalMenu == [v \in VSlots |-> {}]
+
+RECURSIVE HistId(_, _, _)
+HistId(st, j, n) == IF j > n THEN "" ELSE (IF j > 1 THEN "." ELSE "") \o CallCode(st[j].call) \o HistId(st, j + 1, n)
+
+ConcCCall(call, text) == [api |-> call.api, opts |-> call.opts, prog |-> call.prog, eid |-> call.eid, text |-> text]
+HistCase(st, n) == [id |-> "h:" \o HistId(st, 1, n), kind |-> "hist",
+                    calls |-> [j \in 1..n |-> ConcCCall(st[j].call, RenderBare(st[j].call.prog))]]
+
+HistNext == /\ Next
+            /\ last'.act = "Parse" => PrintT(ToJson(HistCase(cs', last'.id)))
+HistSpec == Init /\ [][HistNext]_vars
+
+----------------------------------------------------------------------------
+(* Schedules *)
+SchedProgA == <<NEnv("x"), NNow, NGate(1), NFn("vfA"), NEnv("x"), NToday, NTod, NRes>>
+SchedProgB == <<NNow, NEnv("x"), NGate(1), NFn("vfA"), NToday, NGate(2), NEnv("x"), NNow, NTod, NRes>>
+SchedProgC == <<NEnv("x"), NGate(1), NNow, NFn("vfA"), NGate(2), NEnv("x"), NTod>>
+SchedCompileA == [c \in CSlots |-> {CC("fhirpath", <<OAdd("vfA")>>, SchedProgA, 1)}]
+SchedCompileB == [c \in CSlots |-> {CC("fhirpath", <<OAdd("vfA")>>, SchedProgB, 1)}]
+SchedCompileC == [c \in CSlots |-> {CC("fhirpath", <<OAdd("vfA")>>, SchedProgC, 1)}]
+SchedEvalMenu ==
+  [v \in VSlots |->
+     IF v = 1 THEN {EC(1, 1, <<OEnv("id", 1), OEnv("x", 11), OTime(7, 330)>>)}
+     ELSE IF v = 2 THEN {EC(1, 1, <<OEnv("id", 2), OEnv("x", 12)>>)}
+     ELSE {EC(1, 1, <<OEnv("id", 3), OTime(9, -210), OEnv("x", 13)>>)}]
+(* coarse variant: fewer critical sections per evaluation *)
+SchedEvalMenuShort ==
+  [v \in VSlots |->
+     IF v = 1 THEN {EC(1, 1, <<OEnv("id", 1), OEnv("x", 11)>>)}
+     ELSE IF v = 2 THEN {EC(1, 1, <<OEnv("id", 2), OEnv("x", 12)>>)}
+     ELSE {EC(1, 1, <<OEnv("id", 3), OEnv("x", 13)>>)}]
+
+EvalActs == {"EvalInit", "ApplyEvalOpt", "FailOnOptionError", "NodeStep"}
+EvalSteps(h) == SelectSeq(h, LAMBDA s : s.act \in EvalActs)
+RECURSIVE StepDigits(_, _)
+StepDigits(h, i) == IF i > Len(h) THEN "" ELSE ToString(h[i].id) \o StepDigits(h, i + 1)
+SchedCase(h, st, compile) ==
+  LET steps == EvalSteps(h)
+  IN [id |-> "s:" \o ToString(Len(compile.prog)) \o "g" \o ToString(Cardinality(VSlots)) \o ":" \o StepDigits(steps, 1), kind |-> "sched",
+      compile |-> ConcCCall(compile, RenderEmit(compile.prog)),
+      evals |-> [v \in 1..Cardinality(VSlots) |-> ConcECall(v, st[v].call)],
+      steps |-> [i \in 1..Len(steps) |-> [v |-> steps[i].id, act |-> steps[i].act, k |-> steps[i].k]]]
+
+AllEvalsOver(st) == \A v \in VSlots : st[v].pc \in {"done", "failed"}
+SchedNext == /\ Next
+             /\ (last'.act \in EvalActs /\ AllEvalsOver(es')) => PrintT(ToJson(SchedCase(hist', es', cs[1].call)))
+SchedSpec == InitChosen /\ [][SchedNext]_vars
+
+----------------------------------------------------------------------------
+(* Time programs *)
+TimeProgs == {<<NNow, NPause, NNow, NToday, NTod>>,
+              <<NToday, NPause, NNow, NTod, NPause, NNow>>,
+              <<NTod, NNow, NToday>>}
+TimeOptLists == {<<>>} \cup {<<OTime(i, off)>> : i \in OverrideInstants, off \in Offsets}
+                \cup {<<OTime(7, 0), OTime(9, 330)>>, <<OTime(8, 765), OEnv("x", 1), OTime(8, -210)>>}
+TimeCompileMenu == [c \in CSlots |-> {CC("fhirpath", <<>>, p, 1) : p \in TimeProgs}]
+TimeEvalMenu == [v \in VSlots |-> {EC(1, 1, os) : os \in TimeOptLists}]
+RECURSIVE NodeCodes(_, _)
+NodeCodes(p, i) == IF i > Len(p) THEN "" ELSE (CASE p[i].n = "now" -> "N" [] p[i].n = "today" -> "D" [] p[i].n = "tod" -> "T" [] p[i].n = "pause" -> "_" [] OTHER -> "?") \o NodeCodes(p, i + 1)
+RECURSIVE EOptCodes(_, _)
+EOptCodes(os, k) == IF k > Len(os) THEN "" ELSE (IF os[k].o = "time" THEN "t" \o ToString(os[k].inst) \o (IF os[k].off < 0 THEN "m" \o ToString(-os[k].off) ELSE "p" \o ToString(os[k].off)) ELSE "e") \o EOptCodes(os, k + 1)
+TimeCase(st, compile) ==
+  [id |-> "t:" \o NodeCodes(compile.prog, 1) \o ":" \o EOptCodes(st[1].call.opts, 1), kind |-> "time",
+   compile |-> ConcCCall(compile, RenderEmit(compile.prog)),
+   eval |-> ConcECall(1, st[1].call)]
+TimeNext == /\ Next
+            /\ (last'.act \in EvalActs /\ AllEvalsOver(es')) => PrintT(ToJson(TimeCase(es', cs[1].call)))
+TimeSpec == InitChosen /\ [][TimeNext]_vars
+
+----------------------------------------------------------------------------
+(* The menu of the free-running stress test: shared model programs with    *)
+(* their Compile calls and source text, the evaluate option lists a        *)
+(* goroutine may use (with the calendar fields of every instant), and the  *)
+(* Compile calls goroutines make on the side.  Emitted once; the harness   *)
+(* draws from it with its seeded generator.                                *)
+RECURSIVE SetToSeq(_)
+SetToSeq(ss) == IF ss = {} THEN <<>> ELSE LET x == CHOOSE x \in ss : TRUE IN <<x>> \o SetToSeq(ss \ {x})
+
+StressShared ==
+  <<CC("fhirpath", <<OAdd("vfA")>>, <<NEnv("x"), NNow, NFn("vfA"), NEnv("x"), NToday, NTod, NRes>>, 1),
+    CC("fhirpath", <<OAdd("vfB"), OExp>>, <<NRes, NFn("vfB"), NNow, NEnv("x")>>, 2),
+    CC("fhirpath", <<>>, <<NNow, NEnv("x"), NNow, NTod>>, 3)>>
+StressEvalOpts ==
+  {<<OEnv("x", x)>> : x \in 1..3}
+  \cup {<<OEnv("x", x), OTime(i, off)>> : x \in 1..3, i \in OverrideInstants, off \in Offsets}
+  \cup {<<OTime(i, off), OEnv("x", x)>> : x \in {2}, i \in {7}, off \in Offsets}
+  \cup {<<OEnv("x", 1), OEnv("x", 2)>>}
+StressBareProgs == {<<NFn("vfA")>>, <<NFn("vfB")>>, <<NBogus>>}
+StressCompileCalls == {CC(api, os, p, 0) : api \in {"fhirpath", "patch"}, os \in OptLists(HistAlphabet, 2), p \in StressBareProgs}
+StressMenu ==
+  [kind |-> "stressmenu",
+   shared |-> [j \in 1..Len(StressShared) |-> ConcCCall(StressShared[j], RenderEmit(StressShared[j].prog))],
+   eopts |-> SetToSeq({[k \in 1..Len(os) |-> ConcEOpt(os[k])] : os \in StressEvalOpts}),
+   ccalls |-> SetToSeq({ConcCCall(c, RenderBare(c.prog)) : c \in StressCompileCalls})]
+MenuNext == last.act = "init" /\ PrintT(ToJson(StressMenu)) /\ last' = Step("menu", 0, 0)
+            /\ UNCHANGED <<base, exper, sharedEnv, tz, clock, ticks, cs, exprs, es, cache, hist>>
+MenuSpec == Init /\ [][MenuNext]_vars
 =============================================================================
